@@ -6,9 +6,11 @@
    presentation attributes to one (geometry, paint, font) triple per leaf shape.
    No proofs here (see SvgProofs.v).
 
-   Every function takes [fx : bool]: [false] is the code as it is, [true] is
-   the code with the fixes proposed in proposed_fixes/C19-*.diff (the `_fixed`
-   model).  The four places where they differ are marked FIX.
+   Every function takes [fx : fixes], one switch per recorded defect: [cur] is
+   what /repo HEAD does (the lone-element and gridn fixes are in: 7a67899,
+   292a02f), [none] the code before those fixes (regression lemmas), [all] the
+   code with the remaining proposed_fixes/C19-*.diff applied.  The places where
+   the variants differ are marked FIX.
 
    Numbers are primitive binary64 floats and every arithmetic operation is
    written in the order the Go code performs it.  Number -> text
@@ -49,6 +51,18 @@ Definition sf_eqb (a b : SpecFloat.spec_float) : bool :=
 Definition same_text (a b : float) : bool := sf_eqb (Prim2SF a) (Prim2SF b).
 
 Definition is_empty (s : str) : bool := match s with [] => true | _ => false end.
+
+(* ---------- one switch per recorded defect ---------- *)
+Record fixes := mkFx {
+  fx_ellipse : bool;   (* Ellipse transforms y with transformY                      (finding) *)
+  fx_lone : bool;      (* setAttr of *Rect / *Group keeps own attributes            (7a67899) *)
+  fx_gridn : bool;     (* gridnFunc rejects unit <= 0 before calling the platform   (292a02f) *)
+  fx_text : bool;      (* text filled with the fill colour and not stroked          (finding) *)
+  fx_baseline : bool;  (* Font keeps the mapped baseline name                       (finding) *)
+  fx_family : bool }.  (* the root element carries the default font family          (finding) *)
+Definition cur : fixes := mkFx false true true false false false.    (* /repo HEAD *)
+Definition none : fixes := mkFx false false false false false false. (* before the fix commits *)
+Definition all : fixes := mkFx true true true true true true.        (* with every proposed fix *)
 
 (* ---------- attributes as they sit on an element ----------
    svg.go: type Attr / type TextAttr.  Every field is `omitempty`: "" / nil
@@ -174,13 +188,13 @@ Definition align_map (a : str) : option str :=
 Definition opt_or {A} (o : option A) (d : A) : A := match o with Some x => x | None => d end.
 
 (* func (rt *GraphicsPlatform) Font(props map[string]any), after rt.Push() *)
-Definition font_update (fx : bool) (p : fontprops) (f : fnt) : fnt :=
+Definition font_update (fx : fixes) (p : fontprops) (f : fnt) : fnt :=
   mkF (match fp_align p with Some a => opt_or (align_map a) (f_anchor f) | None => f_anchor f end)
       (match fp_baseline p with
        | Some b =>
            (* the switch maps top/middle/bottom/alphabetic, then the statement
               `rt.textAttr.Baseline = baseline` after it overwrites the result *)
-           if fx then opt_or (baseline_map b) (f_base f) (* FIX font-baseline-not-mapped *)
+           if fx_baseline fx then opt_or (baseline_map b) (f_base f) (* FIX font-baseline-not-mapped *)
            else b
        | None => f_base f end)
       (match fp_size p with Some s => scale s | None => f_size f end)
@@ -193,7 +207,7 @@ Definition font_update (fx : bool) (p : fontprops) (f : fnt) : fnt :=
 Definition set_pen (kk : core) (p : pen) : core := mkK (cx kk) (cy kk) p (kfnt kk).
 Definition set_pos (kk : core) (x y : float) : core := mkK x y (kpen kk) (kfnt kk).
 
-Definition core_step (fx : bool) (kk : core) (c : cmd) : core :=
+Definition core_step (fx : fixes) (kk : core) (c : cmd) : core :=
   let p := kpen kk in
   match c with
   | CMove x y => set_pos kk (tx x) (ty y)                      (* Move *)
@@ -236,11 +250,11 @@ Definition grid_line_attr (thick : bool) : eattr :=
 Definition clear_color (c : str) : str := if is_empty c then clear_default_color else c.
 
 (* Text: `if rt.attr.Fill != rt.attr.Stroke { text.Fill = rt.attr.Stroke }` *)
-Definition text_attr (fx : bool) (p : pen) : eattr :=
-  if fx then mkA [] (s_ "none") None [] []   (* FIX text-painted-with-stroke-colour: filled with the fill colour, not stroked *)
+Definition text_attr (fx : fixes) (p : pen) : eattr :=
+  if fx_text fx then mkA [] (s_ "none") None [] []   (* FIX text-painted-with-stroke-colour: filled with the fill colour, not stroked *)
   else mkA (if str_eqb (p_fill p) (p_stroke p) then [] else p_stroke p) [] None [] [].
 
-Definition draw_item (fx : bool) (fuel : nat) (kk : core) (c : cmd) : option (option item) :=
+Definition draw_item (fx : fixes) (fuel : nat) (kk : core) (c : cmd) : option (option item) :=
   (* None: the call does not return (Gridn); Some None: not a drawing call *)
   match c with
   | CLine x y => Some (Some (IShape (GLine (cx kk) (cy kk) (tx x) (ty y)) a0 t0))
@@ -253,7 +267,7 @@ Definition draw_item (fx : bool) (fuel : nat) (kk : core) (c : cmd) : option (op
   | CPoly pts => Some (Some (IShape (GPoly (map (fun v => (tx (fst v), ty (snd v))) pts)) a0 t0))
   | CEllipse x y rx ry rot =>
       let x' := tx x in
-      let y' := if fx then ty y (* FIX ellipse-cy-not-flipped *) else tx y (* `y = rt.transformX(y)` *) in
+      let y' := if fx_ellipse fx then ty y (* FIX ellipse-cy-not-flipped *) else tx y (* `y = rt.transformX(y)` *) in
       let tr := if PrimFloat.eqb rot 0%float then None else Some (rot, x', y') in
       Some (Some (IShape (GEllipse x' y' (scale rx) (scale ry) tr) a0 t0))
   | CText s => Some (Some (IShape (GText (cx kk) (cy kk) s) (text_attr fx (kpen kk)) t0))
@@ -282,17 +296,21 @@ Definition over_t (own outer : tattr) : tattr :=
       (pick_o (t_ls own) (t_ls outer)).
 
 (* ---------- Push ---------- *)
-(* setAttr of *Rect, *Line, *Circle, *Polyline, *Ellipse, *Group: `x.Attr = a`;
-   of *Text: `t.Attr = a; if t.Attr.Fill != t.Attr.Stroke { t.Attr.Fill = t.Attr.Stroke }` *)
-Definition set_attr (fx : bool) (i : item) (a : eattr) : item :=
+(* setAttr of *Line, *Circle, *Polyline, *Ellipse: `x.Attr = a` (they never carry
+   attributes of their own); of *Rect and *Group: `x.Attr = a.overriddenBy(x.Attr)`
+   since 7a67899 (before: `x.Attr = a`); of *Text:
+   `t.Attr = a; if t.Attr.Fill != t.Attr.Stroke { t.Attr.Fill = t.Attr.Stroke }` *)
+Definition set_attr (fx : fixes) (i : item) (a : eattr) : item :=
   match i with
   | IShape g own t =>
-      if fx then IShape g (over_a own a) t   (* FIX lone-element-own-attributes-overwritten: own attributes win *)
-      else if is_text g then
-        IShape g (if str_eqb (a_fill a) (a_stroke a) then a
-                  else mkA (a_stroke a) (a_stroke a) (a_sw a) (a_cap a) (a_dash a)) t
+      if is_text g then
+        if fx_text fx then IShape g (over_a own a) t   (* FIX text-painted-with-stroke-colour: the own stroke="none" stays *)
+        else IShape g (if str_eqb (a_fill a) (a_stroke a) then a
+                       else mkA (a_stroke a) (a_stroke a) (a_sw a) (a_cap a) (a_dash a)) t
+      else if fx_lone fx then IShape g (over_a own a) t   (* FIX lone-clear-fill-overwritten (7a67899) *)
       else IShape g a t
-  | IGrid own t l => if fx then IGrid (over_a own a) t l else IGrid a t l
+  | IGrid own t l => if fx_lone fx then IGrid (over_a own a) t l (* FIX lone-grid-stroke-overwritten (7a67899) *)
+                     else IGrid a t l
   end.
 
 (* `if at, ok := el.(textAttrSetter); ok { at.setTextAttr(...) }` : *Group and *Text *)
@@ -302,7 +320,7 @@ Definition set_tattr (i : item) (ta : tattr) : item :=
   | IGrid a t l => IGrid a ta l
   end.
 
-Definition push (fx : bool) (st : state) : state :=
+Definition push (fx : fixes) (st : state) : state :=
   let p := kpen (k st) in
   match pending st with
   | [] => st
@@ -317,7 +335,7 @@ Definition push (fx : bool) (st : state) : state :=
 
 (* one platform call.  None: the call never returns (Gridn with a unit that does
    not advance the loop variable): no document is ever written *)
-Definition step (fx : bool) (fuel : nat) (st : state) (c : cmd) : option state :=
+Definition step (fx : fixes) (fuel : nat) (st : state) (c : cmd) : option state :=
   match draw_item fx fuel (k st) c with
   | None => None
   | Some (Some it) => Some (mkS (core_step fx (k st) c) (pending st ++ [it]) (pushed st))
@@ -326,7 +344,7 @@ Definition step (fx : bool) (fuel : nat) (st : state) (c : cmd) : option state :
       Some (mkS (core_step fx (k st') c) (pending st') (pushed st'))
   end.
 
-Fixpoint run (fx : bool) (fuel : nat) (st : state) (l : list cmd) : option state :=
+Fixpoint run (fx : fixes) (fuel : nat) (st : state) (l : list cmd) : option state :=
   match l with
   | [] => Some st
   | c :: t => match step fx fuel st c with Some st' => run fx fuel st' t | None => None end
@@ -341,16 +359,16 @@ Definition program (l : list cmd) : list cmd := CClear white :: l.
 
 (* ---------- the document ---------- *)
 (* attributes of the <svg> root set by NewGraphicsPlatform *)
-Definition root_a (fx : bool) : eattr := mkA root_Fill root_Stroke root_StrokeWidth root_StrokeLinecap [].
-Definition root_t (fx : bool) : tattr :=
+Definition root_a (fx : fixes) : eattr := mkA root_Fill root_Stroke root_StrokeWidth root_StrokeLinecap [].
+Definition root_t (fx : fixes) : tattr :=
   mkT root_TextAnchor root_Baseline root_FontSize root_FontWeight root_FontStyle
-      (if fx then pick_s root_FontFamily default_FontFamily (* FIX default-font-family-not-written *) else root_FontFamily)
+      (if fx_family fx then pick_s root_FontFamily default_FontFamily (* FIX default-font-family-not-written *) else root_FontFamily)
       None.
 
 Record doc := mkD { d_root_a : eattr; d_root_t : tattr; d_elems : list top }.
 
 (* WriteSVG: rt.Push(); encode rt.SVG *)
-Definition render (fx : bool) (st : state) : doc :=
+Definition render (fx : fixes) (st : state) : doc :=
   mkD (root_a fx) (root_t fx) (pushed (push fx st)).
 
 (* ---------- flatten ---------- *)
@@ -384,10 +402,10 @@ Definition flatten (d : doc) : list fshape :=
 
 (* ---------- the specification ----------
    [spec fx fuel cmds]: each drawing call, in order, with its geometry (x ↦ 10·x,
-   y ↦ 1000 − 10·y for EVERY kind of shape when fx = true) and the pen / font in
-   force when it was issued.  [fx = false] describes the four local deviations
-   of the present code (ellipse y, text paint, baseline names, default family);
-   [fx = true] is the intended meaning. *)
+   y ↦ 1000 − 10·y for EVERY kind of shape when fx_ellipse) and the pen / font in
+   force when it was issued.  [spec all] is the intended meaning; a switch that
+   is off describes that local deviation of the code (ellipse y, text paint,
+   baseline names, default family).  fx_lone and fx_gridn do not occur in it. *)
 Definition eff (d s : str) : str := if is_empty s then d else s.
 
 (* the pen in force, as presentation attributes; "" for a colour or cap means
@@ -396,18 +414,18 @@ Definition spec_paint (p : pen) : eattr :=
   mkA (eff default_Fill (p_fill p)) (eff default_Stroke (p_stroke p)) (Some (sw_val p))
       (eff default_StrokeLinecap (p_cap p)) (p_dash p).
 
-Definition spec_font (fx : bool) (f : fnt) : tattr :=
+Definition spec_font (fx : fixes) (f : fnt) : tattr :=
   mkT (eff default_TextAnchor (f_anchor f)) (eff default_Baseline (f_base f))
       (Some (f_size f)) (Some (f_weight f)) (eff default_FontStyle (f_style f))
-      (if fx then eff default_FontFamily (f_family f)
+      (if fx_family fx then eff default_FontFamily (f_family f)
        else (* the default family is written nowhere unless the root element carries it
                (root_FontFamily = "" today: the viewer's default applies) *)
          pick_s (nds default_FontFamily (f_family f)) root_FontFamily)
       (Some (f_ls f)).
 
-Definition spec_text_paint (fx : bool) (p : pen) : eattr :=
+Definition spec_text_paint (fx : fixes) (p : pen) : eattr :=
   let sp := spec_paint p in
-  if fx then
+  if fx_text fx then
     (* docs/builtins.md, text: "Only fill and color have an effect on the text; stroke has no effect" *)
     mkA (a_fill sp) (s_ "none") (a_sw sp) (a_cap sp) (a_dash sp)
   else
@@ -423,7 +441,7 @@ Definition spec_grid_line (p : pen) (c : str) (gb : geom * bool) : fshape :=
        (if snd gb then Some grid_thick_width else a_sw sp) (a_cap sp) (a_dash sp),
    None).
 
-Definition spec_shapes (fx : bool) (fuel : nat) (kk : core) (c : cmd) : option (list fshape) :=
+Definition spec_shapes (fx : fixes) (fuel : nat) (kk : core) (c : cmd) : option (list fshape) :=
   let p := kpen kk in
   let sp := spec_paint p in
   match c with
@@ -437,7 +455,7 @@ Definition spec_shapes (fx : bool) (fuel : nat) (kk : core) (c : cmd) : option (
   | CPoly pts => Some [(GPoly (map (fun v => (tx (fst v), ty (snd v))) pts), sp, None)]
   | CEllipse x y rx ry rot =>
       let x' := tx x in
-      let y' := if fx then ty y else tx y in
+      let y' := if fx_ellipse fx then ty y else tx y in
       Some [(GEllipse x' y' (scale rx) (scale ry)
                       (if PrimFloat.eqb rot 0%float then None else Some (rot, x', y')), sp, None)]
   | CText s => Some [(GText (cx kk) (cy kk) s, spec_text_paint fx p, Some (spec_font fx (kfnt kk)))]
@@ -449,7 +467,7 @@ Definition spec_shapes (fx : bool) (fuel : nat) (kk : core) (c : cmd) : option (
   | _ => Some []
   end.
 
-Fixpoint spec_from (fx : bool) (fuel : nat) (kk : core) (l : list cmd) : option (list fshape) :=
+Fixpoint spec_from (fx : fixes) (fuel : nat) (kk : core) (l : list cmd) : option (list fshape) :=
   match l with
   | [] => Some []
   | c :: t =>
@@ -459,15 +477,15 @@ Fixpoint spec_from (fx : bool) (fuel : nat) (kk : core) (l : list cmd) : option 
       end
   end.
 
-Definition spec (fx : bool) (fuel : nat) (l : list cmd) : option (list fshape) :=
+Definition spec (fx : fixes) (fuel : nat) (l : list cmd) : option (list fshape) :=
   spec_from fx fuel (k pre_init) l.
 
-(* ---------- the guard of the present code (fx = false) ----------
-   [lone_ok p e]: pushing the single pending element [e] under pen [p] does not
-   lose anything: an element with attributes of its own (the `clear` rectangle,
-   the `gridn` group) is only pushed alone while the pen is the default pen,
-   and a lone text is not pushed with an unset stroke colour and a set,
-   non-default fill colour. *)
+(* ---------- the guard ----------
+   [lone_ok fx p [e]]: pushing the single pending element [e] under pen [p] loses
+   nothing.  Without fx_lone an element with attributes of its own (the `clear`
+   rectangle, the `gridn` group) must only be pushed alone under the default
+   pen; without fx_text a lone text must not be pushed with an unset stroke
+   colour and a set, non-default fill colour (part of the text-paint deviation). *)
 Definition self_styled (i : item) : bool :=
   match i with
   | IShape g a _ => negb (is_text g) && negb (is_empty (a_fill a) && is_empty (a_stroke a))
@@ -478,20 +496,38 @@ Definition text_stroke_unset (p : pen) (i : item) : bool :=
   | IShape g _ _ => is_text g && is_empty (p_stroke p) && negb (is_empty (p_fill p)) && negb (str_eqb (p_fill p) default_Fill)
   | _ => false
   end.
-Definition lone_ok (p : pen) (pend : list item) : bool :=
+Definition lone_ok (fx : fixes) (p : pen) (pend : list item) : bool :=
   match pend with
-  | [e] => (negb (self_styled e) || pen_is_default p) && negb (text_stroke_unset p e)
+  | [e] => (fx_lone fx || negb (self_styled e) || pen_is_default p) &&
+           (fx_text fx || negb (text_stroke_unset p e))
   | _ => true
   end.
 
 (* the guard over a history: checked at every Push *)
-Fixpoint guard (fuel : nat) (st : state) (l : list cmd) : bool :=
+Fixpoint guard (fx : fixes) (fuel : nat) (st : state) (l : list cmd) : bool :=
   match l with
-  | [] => lone_ok (kpen (k st)) (pending st)
+  | [] => lone_ok fx (kpen (k st)) (pending st)
   | c :: t =>
-      (if is_style c then lone_ok (kpen (k st)) (pending st) else true) &&
-      match step false fuel st c with Some st' => guard fuel st' t | None => true end
+      (if is_style c then lone_ok fx (kpen (k st)) (pending st) else true) &&
+      match step fx fuel st c with Some st' => guard fx fuel st' t | None => true end
   end.
+
+(* ---------- argument validation before the platform is called ----------
+   evaluator/builtin.go gridnFunc (since 292a02f):
+   `if unit.V <= 0 { return ErrBadArguments }` — the program panics, nothing
+   after the call runs, and main.go still writes the SVG drawn so far.
+   [effective fx l] = the calls that reach the platform. *)
+Definition wrapper_accepts (fx : fixes) (c : cmd) : bool :=
+  match c with
+  | CGridn u _ => if fx_gridn fx then negb (PrimFloat.leb u 0%float) else true
+  | _ => true
+  end.
+Fixpoint effective (fx : fixes) (l : list cmd) : list cmd :=
+  match l with
+  | [] => []
+  | c :: t => if wrapper_accepts fx c then c :: effective fx t else []
+  end.
+Definition rejected (fx : fixes) (l : list cmd) : bool := existsb (fun c => negb (wrapper_accepts fx c)) l.
 
 (* ---------- wire format ---------- *)
 Definition dec_float (x : sx) : option float :=
@@ -638,23 +674,25 @@ Definition enc_fshape (f : fshape) : sx :=
   let '(g, a, t) := f in enc_shape g a t.
 
 (* entry point: (fuel (cmd…)) ↦
-   (ok tree flat spec_asis spec_intended guard tree_fixed flat_fixed) | (hang) *)
+   (ok tree flat spec_cur spec_all guard tree_all flat_all rejected) | (hang)
+   computed on the calls that reach the platform under the wrappers in force *)
 Definition svg_case (x : sx) : sx :=
   match x with
   | Lst [Int fuel; Lst cs] =>
       match dec_cmds cs with
       | Some l =>
           let fuel := Z.to_nat fuel in
-          let prog := program l in
-          match run false fuel pre_init prog, run true fuel pre_init prog,
-                spec false fuel prog, spec true fuel prog with
+          let prog := program (effective cur l) in
+          match run cur fuel pre_init prog, run all fuel pre_init prog,
+                spec cur fuel prog, spec all fuel prog with
           | Some st, Some stf, Some sa, Some si =>
-              Lst [Sym (s_ "ok"); enc_doc (render false st);
-                   Lst (map enc_fshape (flatten (render false st)));
+              Lst [Sym (s_ "ok"); enc_doc (render cur st);
+                   Lst (map enc_fshape (flatten (render cur st)));
                    Lst (map enc_fshape sa); Lst (map enc_fshape si);
-                   sx_bool (guard fuel pre_init prog);
-                   enc_doc (render true stf);
-                   Lst (map enc_fshape (flatten (render true stf)))]
+                   sx_bool (guard cur fuel pre_init prog);
+                   enc_doc (render all stf);
+                   Lst (map enc_fshape (flatten (render all stf)));
+                   sx_bool (rejected cur l)]
           | _, _, _, _ => Lst [Sym (s_ "hang")]
           end
       | None => Sym (s_ "decode-error")
